@@ -52,6 +52,7 @@ fn main() {
     let mut exit = 0;
     let mut out = String::new();
     let mut digest = None;
+    let mut removed: Vec<String> = Vec::new();
     let mut bp_dirs: Vec<(String, String, bool)> = Vec::new();
     match (prog.as_str(), sub) {
         ("pack", "build") => {
@@ -106,7 +107,14 @@ fn main() {
                 exit = 1;
                 eprintln!("ERROR: failed to build: injected failure");
             } else {
-                touch(&state.join("images").join(&image));
+                // reproducible builds: identical inputs give the same image id under any name
+                let id = format!(
+                    "{:016x}",
+                    simcore::rng::hash_str(&format!("{:?}|{:?}", digest, args.iter().filter(|a| !a.starts_with("libcnbtest_") && !a.contains("name=libcnbtest_") && !a.starts_with("VERIF_ROOT=")).collect::<Vec<_>>()))
+                );
+                let p = state.join("images").join(&image);
+                touch(&p);
+                let _ = std::fs::write(&p, id);
                 out.push_str("Successfully built image\n");
             }
         }
@@ -200,9 +208,22 @@ fn main() {
                 }
             }
         }
+        ("docker", "image" | "inspect") if args.iter().any(|a| *a == "inspect") || sub == "inspect" => {
+            // `docker image inspect --format {{.Id}} <name>`: the image id
+            let name = args.iter().skip(1).rev().find(|a| !a.starts_with('-') && !a.contains("{{") && **a != "inspect").copied().unwrap_or("");
+            match std::fs::read_to_string(state.join("images").join(name)) {
+                Ok(id) if !injected => out.push_str(&format!("sha256:{id}\n")),
+                _ => {
+                    exit = 1;
+                    eprintln!("Error: No such image: {name}");
+                }
+            }
+        }
         ("docker", "rm") => {
             for n in positional(1) {
-                let _ = std::fs::remove_file(state.join("containers").join(n));
+                if std::fs::remove_file(state.join("containers").join(&n)).is_ok() {
+                    removed.push(format!("containers/{n}"));
+                }
             }
             if !args.contains(&"--force") {
                 exit = 1;
@@ -211,17 +232,37 @@ fn main() {
         ("docker", "rmi") => {
             let mode = read_num(&dir.join("rmi_mode"));
             for n in positional(1) {
-                let p = state.join("images").join(n);
+                let p = state.join("images").join(&n);
                 if mode == 2 {
                     exit = 1;
                     eprintln!("Error response from daemon: conflict: unable to delete (injected)");
                     continue;
                 }
+                if !p.exists() {
+                    // not a name: maybe an image id — that removes every name of the image
+                    let want = n.trim_start_matches("sha256:").to_string();
+                    let mut hit = false;
+                    if let Ok(rd) = std::fs::read_dir(state.join("images")) {
+                        for e in rd.flatten() {
+                            if !want.is_empty() && std::fs::read_to_string(e.path()).is_ok_and(|id| id == want) {
+                                hit = true;
+                                if std::fs::remove_file(e.path()).is_ok() {
+                                    removed.push(format!("images/{}", e.file_name().to_string_lossy()));
+                                }
+                            }
+                        }
+                    }
+                    if hit {
+                        continue;
+                    }
+                }
                 if mode == 1 && !p.exists() {
                     exit = 1;
                     eprintln!("Error response from daemon: No such image");
                 }
-                let _ = std::fs::remove_file(p);
+                if std::fs::remove_file(&p).is_ok() {
+                    removed.push(format!("images/{n}"));
+                }
             }
             if !args.contains(&"--force") {
                 exit = 1;
@@ -229,7 +270,9 @@ fn main() {
         }
         ("docker", "volume") => {
             for n in positional(2) {
-                let _ = std::fs::remove_file(state.join("volumes").join(n));
+                if std::fs::remove_file(state.join("volumes").join(&n)).is_ok() {
+                    removed.push(format!("volumes/{n}"));
+                }
             }
             if !args.contains(&"--force") {
                 exit = 1;
@@ -244,7 +287,7 @@ fn main() {
         let _ = writeln!(
             f,
             "{}",
-            json!({"i": global, "nc": nc_index, "prog": prog, "argv": args, "exit": exit, "injected": injected, "digest": digest, "bp_dirs": bp_dirs})
+            json!({"i": global, "nc": nc_index, "prog": prog, "argv": args, "exit": exit, "injected": injected, "digest": digest, "bp_dirs": bp_dirs, "removed": removed})
         );
     }
     print!("{out}");
